@@ -21,5 +21,5 @@ CONSTANTS
   SlackSched = 0
 INVARIANTS TypeOK Inv_C02 C02_Independent C02_Buf50First
 INVARIANTS Inv_C15 C15_CountersTrackDelivery
-INVARIANTS C18_NoLeak C18_ServeWaits C18_SocketsFollowHandler
+INVARIANTS C18_NoLeak C18_AllReturned C18_ServeWaits C18_SocketsFollowHandler
 VIEW View
